@@ -1263,3 +1263,85 @@ Proof.
   - discriminate.
   - destruct kvs; [discriminate|reflexivity].
 Qed.
+
+(* ------------------------------------------------------------------ the expression compiler's route *)
+Lemma np_reduce_same_fold : forall u x xs,
+  np_reduce {| uf_cast := same_dtype; uf_op := u |} (x :: xs) = over_pure (ew2 u) (x :: xs).
+Proof.
+  intros u x xs. destruct xs as [|y xs]; [|apply (np_reduce_is_fold _ (uf_ok_same u))].
+  unfold np_reduce. destruct (classify [x]) as [ns|n rows|] eqn:Hc.
+  - apply classify_vec in Hc. destruct ns as [|n0 [|n1 rest]]; try discriminate.
+    cbn [map] in Hc. injection Hc as Hx. subst x. reflexivity.
+  - apply classify_mat in Hc. destruct Hc as [Hx [r0 [rest [Hrows [H0 Hs]]]]]. subst rows.
+    destruct rest; [|discriminate]. cbn [map] in Hx. injection Hx as Hx. subst x.
+    cbn [map uf_cast uf_op over_pure fold_res].
+    rewrite (reduce_axis0_is_fold num u (NI 0) n (map same_dtype r0) []);
+      [|rewrite map_length; exact H0|reflexivity].
+    cbn [fold_left]. unfold same_dtype. rewrite map_id. reflexivity.
+  - reflexivity.
+Qed.
+
+Lemma admitted_list_nonatom : forall l, admitted (VList l) = true -> is_atom (VList l) = false /\ l <> [].
+Proof. intros l H. destruct l; [discriminate|]. split; [reflexivity|discriminate]. Qed.
+
+Section Compiled.
+  Variable S : Type.
+
+  (* |/a &/a +/a */a of a variable or function argument, as compiled: np.<ufunc>.reduce = the expansion, for
+     every admitted operand (number, numeric vector, matrix, higher rank) *)
+  Theorem compiled_over_is_fold : forall op u (a : val) (s : S) r,
+    In (op, u) [("+"%string, n_add); ("*"%string, n_mul); ("|"%string, n_max); ("&"%string, n_min)] ->
+    compiled_over redscan_ops_model compiled_reduce_model (Some op) a = Some r ->
+    (r, s) = s_over (pure2 (ew2 u)) a s.
+  Proof.
+    intros op u a s r Hin Hc. unfold compiled_over in Hc.
+    assert (Hops : existsb (String.eqb op) redscan_ops_model = true).
+    { simpl in Hin. destruct Hin as [H|[H|[H|[H|[]]]]]; inversion H; subst; reflexivity. }
+    rewrite Hops in Hc. cbn [andb] in Hc.
+    destruct (admitted a) eqn:Hadm; [|discriminate].
+    assert (Hact : exists uf, lookup op compiled_reduce_model = Some uf /\
+                   compiled_reduce_uf uf = Some {| uf_cast := same_dtype; uf_op := u |}).
+    { simpl in Hin. destruct Hin as [H|[H|[H|[H|[]]]]]; inversion H; subst; eexists; split; reflexivity. }
+    destruct Hact as [act [Hl Huf]]. rewrite Hl, Huf in Hc.
+    destruct a as [z|f|c|str|l|kvs]; try discriminate.
+    - inversion Hc. reflexivity.
+    - inversion Hc. reflexivity.
+    - destruct (admitted_list_nonatom l Hadm) as [Hna Hne].
+      rewrite s_over_pure by exact Hna. cbn [items].
+      destruct l as [|x xs]; [congruence|]. inversion Hc. rewrite np_reduce_same_fold. reflexivity.
+  Qed.
+
+  Theorem compiled_scan_is_scan : forall op u (a : val) (s : S) r,
+    In (op, u) [("+"%string, n_add); ("*"%string, n_mul)] ->
+    compiled_scan redscan_ops_model compiled_scan_model (Some op) a = Some r ->
+    (r, s) = s_scan (pure2 (ew2 u)) a s.
+  Proof.
+    intros op u a s r Hin Hc. unfold compiled_scan in Hc.
+    assert (Hops : existsb (String.eqb op) redscan_ops_model = true).
+    { simpl in Hin. destruct Hin as [H|[H|[]]]; inversion H; subst; reflexivity. }
+    rewrite Hops in Hc. cbn [andb] in Hc.
+    destruct (admitted a) eqn:Hadm; [|discriminate].
+    assert (Hact : exists uf, lookup op compiled_scan_model = Some uf /\
+                   compiled_scan_uf uf = Some {| uf_cast := same_dtype; uf_op := u |}).
+    { simpl in Hin. destruct Hin as [H|[H|[]]]; inversion H; subst; eexists; split; reflexivity. }
+    destruct Hact as [act [Hl Huf]]. rewrite Hl, Huf in Hc.
+    destruct a as [z|f|c|str|l|kvs]; try discriminate.
+    destruct (admitted_list_nonatom l Hadm) as [Hna Hne].
+    rewrite s_scan_pure by exact Hna. cbn [items].
+    destruct l as [|x xs]; [congruence|]. inversion Hc.
+    rewrite np_accumulate_is_scan by apply uf_ok_same. rewrite cast_first_same.
+    cbn [scan_pure uf_op]. destruct (acc_res (ew2 u) x xs); reflexivity.
+  Qed.
+End Compiled.
+
+Lemma compiled_over_gen : forall S ops rt, ops = redscan_ops_model -> rt = compiled_reduce_model ->
+  forall op u (a : val) (s : S) r,
+    In (op, u) [("+"%string, n_add); ("*"%string, n_mul); ("|"%string, n_max); ("&"%string, n_min)] ->
+    compiled_over ops rt (Some op) a = Some r -> (r, s) = s_over (pure2 (ew2 u)) a s.
+Proof. intros S ops rt -> ->. apply compiled_over_is_fold. Qed.
+
+Lemma compiled_scan_gen : forall S ops st, ops = redscan_ops_model -> st = compiled_scan_model ->
+  forall op u (a : val) (s : S) r,
+    In (op, u) [("+"%string, n_add); ("*"%string, n_mul)] ->
+    compiled_scan ops st (Some op) a = Some r -> (r, s) = s_scan (pure2 (ew2 u)) a s.
+Proof. intros S ops st -> ->. apply compiled_scan_is_scan. Qed.
